@@ -37,6 +37,13 @@ func c05get(idx int) c05case {
 	db := rng.Pick(r, []int{0, 1, 2, 7, 15, 3})
 	switch {
 	case slot == nspec:
+		if r.Bool() {
+			// a supported command whose name is spelt with look-alike letters outside ASCII is an unknown command
+			v := grammar.Generate(grammar.Specs[r.Intn(nspec)], r, tok)
+			if req, ok := grammar.Lookalike(r, v); ok {
+				return c05case{Kind: "unknown", Req: req, DB: db}
+			}
+		}
 		return c05case{Kind: "unknown", Req: grammar.Unknown(r, tok), DB: db}
 	case slot == nspec+1:
 		// two application executors: one registered under an upper-case name, one under a mixed-case name
@@ -296,7 +303,7 @@ func init() {
 	run.Register(&run.Prop{
 		ID: "C05", Level: "exploration",
 		Rule: func(tier string) string {
-			return "case = one request preceded by SELECT n on a fresh scripted connection with a recording handler: round-robin over every grammar entry (independent command grammar, random letter case for command and option names, all option combinations/orders the grammar generates, binary strings incl. CR/LF/NUL, boundary ints and floats, 1..k list elements, duplicate keys), plus unknown commands and an application-registered executor. Oracle: recorded calls == the grammar's expected calls (strings byte-exact, floats by bits, options field by field, list order, last value wins for MSET/HMSET compared as a multiset, relative expiry bracketed by in-process instants), conn.Database()==n, reply == what the double returned. distinct = hash of the request bytes; non-trivial = vector has an option, a binary byte, >=2 list elements or a duplicate key (or is an unknown/custom command)"
+			return "case = one request preceded by SELECT n on a fresh scripted connection with a recording handler: round-robin over every grammar entry (independent command grammar, random letter case for command and option names, all option combinations/orders the grammar generates, binary strings incl. CR/LF/NUL, boundary ints and floats, 1..k list elements, duplicate keys), plus unknown commands (invented names, and supported names spelt with the non-ASCII letters U+017F / U+0131 that Unicode case mapping folds onto S and I) and an application-registered executor. Oracle: recorded calls == the grammar's expected calls (strings byte-exact, floats by bits, options field by field, list order, last value wins for MSET/HMSET compared as a multiset, relative expiry bracketed by in-process instants), conn.Database()==n, reply == what the double returned. distinct = hash of the request bytes; non-trivial = vector has an option, a binary byte, >=2 list elements or a duplicate key (or is an unknown/custom command)"
 		},
 		Assumptions: []string{"the grammar in /verif/harness/grammar (written from the Redis command reference) states the intended dispatch", "MSET/HMSET decomposition order is unspecified"},
 		Setup: func(tier string, seed uint64) int {
